@@ -97,6 +97,16 @@ CLAIMED["C08"] = dict(
          "mirror solution (returned with a UserWarning) and runs that do not converge from a far start are discards. Known finding: non-unique "
          "solutions with pump / compressor bypass.",
     ref="DESIGN.md 4/C08")
+CLAIMED["C09"] = dict(
+    technique="metamorphic property-based testing: six physically neutral rewrites recipe -> recipe with predicted change of the results",
+    text="Exploration: for generated hydraulic nets (all fluids) and heating loops one of the rewrites reverse / split-into-series / "
+         "merge-sections / aggregate-loads / remove-disabled / shift-fixed-pressures is applied to a generated subset of elements; both "
+         "recipes are built from scratch, solved with tight tolerances and compared column by column with the predicted mapping (sign and "
+         "from/to swap for reversed branches, end values for split pipes, +c on pressures for the shift).",
+    note="Trusted: cross-run tolerances of DESIGN 2.3 widened by an a-posteriori conditioning bound of the flows (compare.cond_flow_tol). "
+         "Discards: pump / compressor at zero or reverse flow, verdict mismatches under Colebrook / Swamee-Jain. Known finding: start-temperature "
+         "asymmetry next to an ext grid whose t_k differs from tfluid_k.",
+    ref="DESIGN.md 4/C09")
 NOT_YET = {}
 
 def main():
